@@ -48,6 +48,7 @@ from src.core.registry import RuleRegistry
 from src.core.types import Violation
 from src.linter_config.ignore import get_ignore_parser
 from src.linter_config.loader import LinterConfigLoader
+from src.linter_config.pattern_utils import matches_pattern
 
 from .language_detector import detect_language
 
@@ -321,7 +322,7 @@ class Orchestrator:  # thailint: ignore[srp]
         if _is_hardcoded_excluded(self._path_within_project(file_path)):
             return []
 
-        if self.ignore_parser.is_ignored(file_path):
+        if self.ignore_parser.is_ignored(file_path) or self._is_config_ignored(file_path):
             return []
 
         language = detect_language(file_path)
@@ -332,6 +333,18 @@ class Orchestrator:  # thailint: ignore[srp]
         context = FileLintContext(file_path, language, metadata=metadata)
 
         return self._execute_rules(rules, context)
+
+    def _is_config_ignored(self, file_path: Path) -> bool:
+        """Check the top-level `ignore` list of the loaded configuration.
+
+        The list is honoured whichever file carried it (.thailint.yaml, .thailint.json,
+        pyproject.toml or a file passed with --config).
+        """
+        patterns = self.config.get("ignore") if isinstance(self.config, dict) else None
+        if not isinstance(patterns, list) or not patterns:
+            return False
+        relative = self._path_within_project(file_path).as_posix()
+        return any(matches_pattern(relative, str(pattern)) for pattern in patterns)
 
     def _path_within_project(self, file_path: Path) -> Path:
         """Return the path relative to the project root when the file lives under it.
